@@ -61,7 +61,7 @@ namespace vh
     for(Index i = 0; i < rows; ++i)
     {
       rp(i, IT(k));
-      for(Index j : p[i]) { DT v = H<DT>::var(name + str(k), base + 0.3125 * double(k) * ((k % 3 == 1) ? -1.0 : 1.0)); ci(k, IT(j)); va(k, v); if(dense) (*dense)[i][j] += v; ++k; }
+      for(Index j : p[i]) { DT v = H<DT>::var(name + str(k), base + 0.3125 * double(k) * ((k % 3 == 1) ? -1.0 : 1.0) + 0.046875 * double(k * k % 7)); ci(k, IT(j)); va(k, v); if(dense) (*dense)[i][j] += v; ++k; }
     }
     rp(rows, IT(k));
     return LAFEM::SparseMatrixCSR<DT, IT>(rows, cols, ci, va, rp);
